@@ -421,7 +421,7 @@ class AbstractCircuit(abc.ABC):
             end_moment_index = len(self.moments)
 
         if max_distance is None:
-            max_distance = len(self.moments)
+            max_distance = end_moment_index
         elif max_distance < 0:
             raise ValueError(f'Negative max_distance: {max_distance}')
         else:
